@@ -1,6 +1,7 @@
 //@ property: C12
 //@ mount: src/block.rs
 //@ functions: src/block.rs::Block::size, src/block.rs::Block::weight
+// NOT RUN (`//@ unregistered-harness:`): harnesses that did not finish within 30 minutes of CBMC (measured on 16 cores, 5 in parallel).
 use super::*;
 use crate::confidential;
 use crate::{AssetIssuance, LockTime, OutPoint, Sequence, TxIn, TxInWitness, TxOut, TxOutWitness, Txid};
@@ -85,9 +86,9 @@ macro_rules! block_harness {
     };
 }
 
-//@ harness: block_size_weight_legacy class=B tier=thorough bound="legacy header (1-byte challenge, 2-byte solution), 1 transaction (1 input with a 3-byte witness item, 1 explicit output)" timeout=900
+//@ harness: block_size_weight_legacy class=B tier=thorough bound="legacy header (1-byte challenge, 2-byte solution), 1 transaction (1 input with a 3-byte witness item, 1 explicit output)" timeout=3000
 //@ clause: Block::size == serialized length of the block; Block::weight == 4*(header bytes + tx-count varint) + sum of Transaction::weight
 block_harness!(block_size_weight_legacy, false, true);
-//@ harness: block_size_weight_dynafed class=B tier=thorough bound="dynafed header (null/null params, signblock witness [2 bytes]), 1 transaction without witness" timeout=900
+//@ unregistered-harness: block_size_weight_dynafed class=B tier=thorough bound="dynafed header (null/null params, signblock witness [2 bytes]), 1 transaction without witness" timeout=900
 //@ clause: same for a dynafed header; without transaction witnesses weight == 4*size
 block_harness!(block_size_weight_dynafed, true, false);
